@@ -15,7 +15,8 @@ from .. import multi
 
 ID = "C02"
 LEVEL = "exploration"
-RULE = ("random queries over 1-4 variables of two related classes (Q.p -> P): self-joins, chained attributes, object "
+RULE = ("(a) exhaustive: every condition tree with <= N connectives (N=2 quick, 3 thorough) over six two-variable leaves on a fixed "
+        "3x4 world; (b) random queries over 1-4 variables of two related classes (Q.p -> P): self-joins, chained attributes, object "
         "equality joins, literals, predicates over two variables, conditions mentioning only a subset of the variables "
         "(free Cartesian completion), no condition at all, every selection subset and order, selected attribute "
         "expressions; depth<=4; caching on (default) and off; set_of(...) and an([..], ...) spellings. Non-trivial: the "
@@ -37,19 +38,51 @@ ASSUMPTIONS = [
 ]
 
 
+# ---- bounded-exhaustive part: two joined variables (x over P, y over Q), 6 leaves, fixed 3x4 world
+A = lambda i, *path: ["v", i, [["a", p] for p in path]]
+LEAVES2 = [
+    ["cmp", "==", A(0, "a"), A(1, "a")],                 # value join
+    ["cmp", "==", A(1, "p"), ["v", 0, []]],              # object join  y.p == x
+    ["cmp", "<", A(0, "b"), A(1, "b")],                  # inequality join
+    ["cmp", ">", A(0, "a"), ["lit", 1]],                 # mentions x only
+    ["cmp", "!=", A(1, "a"), ["lit", 2]],                # mentions y only
+    ["in", A(1, "a"), A(0, "t")],                        # membership join
+]
+W2 = {"P": [{"a": 1, "b": 2, "t": [1, 2]}, {"a": 2, "b": 1, "t": [3]}, {"a": 3, "b": 3, "t": [2, 3]}],
+      "Q": [{"a": 1, "b": 3, "p": 0}, {"a": 2, "b": 2, "p": 2}, {"a": 3, "b": 1, "p": 2}, {"a": 2, "b": 3, "p": 1}]}
+SELS2 = [[0, 1], [1, 0], [0], [1]]
+SIZES = {"quick": 2, "thorough": 3}
+
+
+def exhaustive_info(tier):
+    n = SIZES[tier]
+    return {"exhaustive": True,
+            "bound": f"all {C.count_trees(len(LEAVES2), n)} condition trees with <= {n} connectives over 6 two-variable leaves (value, "
+                     f"object, inequality and membership joins, one-variable conditions) on a fixed 3x4 world, each with one of 4 "
+                     f"selections in rotation and caching on/off in rotation; the random part is sampled"}
+
+
 def plan(tier, seed):
     n = 450 if tier == "quick" else 4000
-    return [{"n": n, "sub": i} for i in range(16)]
+    nsh = 16
+    return [{"n": n, "sub": i} for i in range(nsh)] + \
+        [{"kind": "exh2", "size": SIZES[tier], "stride": nsh, "offset": i} for i in range(nsh)]
 
 
 def floors(tier):
     return {"distinct_nontrivial": 300, "cls:all_selected": 200, "cls:subset_selected": 100, "cls:caching_off": 100,
             "cls:completion": 50, "cls:expr_selected": 10, "re:.*@Comparator\\.R\\.enter": 1000,
             "re:Variable@Comparator\\.L\\.enter": 100, "cache.check.hit": 200, "dedup.call": 500,
-            "cls:nvars=3": 100, "cls:nvars=4": 50}
+            "cls:nvars=3": 100, "cls:nvars=4": 50, "cls:exhaustive_two_variable_tree": 2000}
 
 
 def cases(spec, ctx):
+    if spec.get("kind") == "exh2":
+        for i, tree in enumerate(C.enumerate_trees(LEAVES2, spec["size"])):
+            if i % spec["stride"] == spec["offset"]:
+                yield {"world": W2, "kinds": ["P", "Q"], "cond": tree, "sel": SELS2[i % 4], "caching": (i // 4) % 3 != 0,
+                       "form": "set_of", "how": "let", "times": 1 + (i // 12) % 2, "exh": True}
+        return
     for i in range(spec["n"]):
         rng = ctx.rng(spec["sub"], i)
         nv_hi = 4 if rng.random() < 0.35 else 3
@@ -73,6 +106,8 @@ def check_case(case, ctx):
     exp = multi.expected(case, world)
     nv = len(case["kinds"])
     ctx.cls(f"cls:nvars={nv}")
+    if case.get("exh"):
+        ctx.cls("cls:exhaustive_two_variable_tree")
     ctx.cls("cls:all_selected" if multi.all_selected(case) else "cls:subset_selected")
     ctx.cls("cls:caching_on" if case["caching"] else "cls:caching_off")
     if "E" in case["kinds"]:
